@@ -48,6 +48,14 @@ def gen_cases(tier, seed):
                     if act[0] in KILLS or other[0] in KILLS:
                         for s in (range(0, n + 1) if tier == 'thorough' else range(0, n + 1, 2)):
                             plist.append([{'at': s, 'act': other}, base])
+        # two requests issued from listener callbacks in one run (the second possibly while the first is being carried out)
+        for ev1, a1 in (('waiting', ['pause', 'p']), ('running', ['pause', 'p']), ('waiting', ['kill', 'k']), ('running', ['kill', 'k'])):
+            for ev2, a2 in (('paused', ['kill', 'k']), ('paused', ['play']), ('played', ['kill', 'k']), ('waiting', ['kill', 'k']), ('running', ['kill', 'k']),
+                            ('output', ['kill', 'k'])):
+                for k1 in (1, 2):
+                    if a1[0] in KILLS or a2[0] in KILLS:
+                        plist.append([{'at': ['listener', ev1, k1], 'act': a1}, {'at': ['listener', ev2, 1], 'act': a2}])
+                        plist.append([{'at': 1, 'act': ['pause', 'p']}, {'at': ['listener', ev1, k1], 'act': a1}, {'at': ['listener', ev2, 1], 'act': a2}])
         # three requests within one step (same slot or neighbouring slots), every combination of pause / play / kill with a kill
         small = [['pause', 'p'], ['play'], ['kill', 'k']]
         for s0 in range(0, n + 1):
